@@ -39,7 +39,8 @@ def run(ctx):
     seed = ctx.seed
     ctx.rule = ("instances: (a) every instance of the exhaustive TLC lattice (3 variables), "
                 "(b) seeded random DAG/cyclic instances inside the exact envelope (2..8 variables), "
-                "(c) seeded random large instances (8..60 variables, weights 1e-2..1e10, scales 0.5..4); "
+                "(c) seeded random large instances (8..60 variables, weights 1e-2..1e10, scales 0.5..4), "
+                "(d) re-solves: the same Solver solved for other desired positions first, then retargeted (small and large); "
                 "non-trivial = the solver merged at least one constraint (some constraint active or flagged)")
     ctx.assumptions += [
         "exact optimality is decided only inside the 32-bit envelope of Vpsc.tla (<= 8 variables, weights 1..3, "
@@ -50,6 +51,8 @@ def run(ctx):
     ctx.model("MCVpsc", "MCVpsc_quick.cfg", workers=core.NCPU, heap="4g", label="exhaustive N=3 DAG, no-change stop rule")
     ctx.model("MCVpsc", "NegVpsc_coststop.cfg", workers=2, expect_violation="Feasible",
               label="negative self-test: cost-stationary stop rule ends infeasible")
+    ctx.model("VpscResolve", "VpscResolve_quick.cfg" if quick else "VpscResolve.cfg", workers=core.NCPU, heap="6g",
+              label="re-solve: setDesiredPositions + solve() from every block structure a first solve leaves behind (N=3 DAG)")
     if not quick:
         ctx.model("MCVpsc", "MCVpsc_scales.cfg", workers=core.NCPU, heap="6g",
                   label="exhaustive N=3 DAG with scales {1,2}, TrueOpt brute force")
@@ -81,7 +84,8 @@ def run(ctx):
     ctx.sample({"kind": "lattice", "record": recs[len(recs) // 2]})
 
     # ---- code -> spec: seeded random instances
-    plan = [("small", 480 if quick else 6000), ("scaled", 160 if quick else 2000), ("cyclic", 160 if quick else 2000)]
+    plan = [("small", 480 if quick else 6000), ("scaled", 160 if quick else 2000), ("cyclic", 160 if quick else 2000),
+            ("resolve", 320 if quick else 4000)]
     for mode, cnt in plan:
         jobs = []
         per = cnt // core.NCPU
@@ -96,7 +100,7 @@ def run(ctx):
         fails = ctx.validate("VpscTrace", "VpscTrace.cfg", recs, expect="init", per_shard=60)
         report_failures(ctx, fails, recs, mode)
         ctx.evaluations += len(recs)
-        ctx.nontrivial += len({json.dumps([r["des"], r["wt"], r["sc"], r["cl"], r["cr"], r["cg"]])
+        ctx.nontrivial += len({json.dumps([r["des"], r["wt"], r["sc"], r["cl"], r["cr"], r["cg"], r["first"]])
                                for r in recs if any(r["act"]) or any(r["uns"])})
         ctx.extra.setdefault("discarded_outside_envelope", {})[mode] = disc
         ctx.sample({"kind": mode, "record": recs[0]})
@@ -132,6 +136,9 @@ def run(ctx):
     hcnt = 4800 if quick else 96000
     jobs += [{"script": "d_vpsc.py", "stdin_obj": {"seed": seed * 1000 + 700 + k, "count": hcnt // core.NCPU, "mode": "heavy"}}
              for k in range(core.NCPU)]
+    rcnt = 320 if quick else 6400
+    jobs += [{"script": "d_vpsc.py", "stdin_obj": {"seed": seed * 1000 + 300 + k, "count": rcnt // core.NCPU, "mode": "reslarge"}}
+             for k in range(core.NCPU)]
     recs = []
     for out in core.run_drivers_parallel(jobs):
         recs += out["records"]
@@ -148,7 +155,7 @@ def run(ctx):
 
 
 def hash_mode(m):
-    return {"small": 11, "scaled": 23, "cyclic": 37}[m]
+    return {"small": 11, "scaled": 23, "cyclic": 37, "resolve": 53}[m]
 
 
 def replay(path):
@@ -161,13 +168,14 @@ def replay(path):
             return sum(d * 10000 ** i for i, d in enumerate(l))
         inst = {"des": ["%d/1000000" % d for d in rec["des6"]], "wt": ["%d/100" % big(w) for w in rec["wt100"]],
                 "sc": ["%d/2" % s for s in rec["sc"]],
-                "cons": [[a - 1, b - 1, "%d/200000" % g] for a, b, g in zip(rec["cl"], rec["cr"], rec["cg5"])]}
+                "cons": [[a - 1, b - 1, "%d/200000" % g] for a, b, g in zip(rec["cl"], rec["cr"], rec["cg5"])],
+                "first": rec.get("first") or []}
         out = core.run_driver("d_vpsc.py", stdin_obj={"seed": 0, "count": 0, "mode": "large", "large_instances": [inst]})
         fails, _ = core.validate_records("VpscBig", "VpscBig.cfg", out["records"])
     else:
         # re-run the real solver on the instance, then validate
         inst = {"des": rec["des"], "wt": rec["wt"], "sc": rec["sc"],
-                "cons": [[a - 1, b - 1, g] for a, b, g in zip(rec["cl"], rec["cr"], rec["cg"])]}
+                "cons": [[a - 1, b - 1, g] for a, b, g in zip(rec["cl"], rec["cr"], rec["cg"])], "first": rec.get("first") or []}
         out = core.run_driver("d_vpsc.py", stdin_obj={"seed": 0, "count": 1, "mode": "small", "instances": [inst]})
         fails, _ = core.validate_records("VpscTrace", "VpscTrace.cfg", out["records"], expect="init")
     for idx, inv in fails:
